@@ -208,6 +208,7 @@ theorem stepC_ext (e : Env) (s : State) (op : Op) (hb : Bnd s) : Ext s (stepC e 
   case delegate => exact Ext.refl hb
   case undelegate => exact Ext.refl hb
   case redelegate => exact Ext.refl hb
+  case govfishmen => exact os_ext rfl hb
   case restart => exact Ext.refl hb
   case genesis =>
     show Ext s (exportImport s)
